@@ -20,7 +20,7 @@ ASSUMPTIONS = ["failpoints raise a RuntimeError subclass at the entry of a layer
                "sites at or below the transport cipher in the byte stream (network, segments in both directions, noise on receive) lose bytes of an ordered encrypted stream when they fail: "
                "for them same-connection follow-ups are only required not to block, and everything is required to work after a reconnect",
                "after-failure follow-ups run in helper threads so that a wedged stack is observed as a blocked thread instead of hanging the check"]
-REQUIRED = ["real_upward_failure_cases", "real_upward_failure_ok", "real_write_error_cases", "real_write_error_ok", "real_write_error:socket", "real_write_error:asyncore", "cases", "failpoints_reached", "natural_failures", "locks_censused", "followups_ok", "reconnect_followups_ok",
+REQUIRED = ["concurrent_followup_phases", "concurrent_followups_ok", "real_upward_failure_cases", "real_upward_failure_ok", "real_write_error_cases", "real_write_error_ok", "real_write_error:socket", "real_write_error:asyncore", "cases", "failpoints_reached", "natural_failures", "locks_censused", "followups_ok", "reconnect_followups_ok",
             "sites", "other_thread_followups"]
 TIMEOUT = {"quick": 600, "thorough": 7200}
 
@@ -249,6 +249,43 @@ def run_case(acc, seed, tag, d):
                 return
             fu.append((op, kind, thr, ok))
         res["followups"] = fu
+        # ... and from two threads at once: the thread that lived through the failure and a fresh one (the failure must not have
+        # left anything behind that lets either of them slip past the others)
+        if not critical and W.clients[A].connected and not res["blocked"]:
+            import random as _random
+            from vf import inject
+            c_ = W.clients[A]
+            ids = {"x": ["ccx-%d" % i for i in range(20)], "y": ["ccy-%d" % i for i in range(20)]}
+            before_in = len(W.server.inbound.get(A, [])) + 0
+
+            x_started = threading.Event()
+
+            def burst(name):
+                if name == "y":
+                    # the other thread joins while the first one is inside a long send
+                    x_started.wait(5)
+                    time.sleep(0.0005)
+                for n_, i_ in enumerate(ids[name]):
+                    big = gen.blob(r, 64) * (3000 if (name == "x" and n_ % 5 == 0) else 1)
+                    if name == "x" and n_ == 0:
+                        x_started.set()
+                    c_.guarded(lambda i_=i_, big=big: c_.app.toLower(Blob(ProtocolTreeNode("iq", {"id": i_, "type": "set", "xmlns": "w"}, [ProtocolTreeNode("blob", {}, None, big)], None))), "send:concurrent")
+            yi = inject.YieldInjector(_random.Random(r.randrange(1 << 30)), ("yowsup/layers/__init__.py", "yowsup/layers/noise/layer.py", "yowsup/layers/noise/layer_noise_segments.py",
+                                                                               "consonance/transport.py", "yowsup/layers/coder/layer.py"), p=0.5)
+            t_ = threading.Thread(target=burst, args=("y",), name="verif-concurrent-sender")
+            t_.daemon = True
+            with yi:
+                t_.start()
+                burst("x")
+                t_.join(20)
+            if t_.is_alive():
+                stt = probes.thread_states([t_]).get(t_.name, [])
+                res["blocked"] = ("concurrent follow-up send", [list(f[:3]) for f in stt[:6]], probes.blocked_on_lock(stt) or probes.parked_forever(stt))
+                return
+            W.run(max_steps=W.steps + 4000)
+            got_ids = [i_ for ph, i_ in W.server.iq_ids_seen if ph == A and str(i_).startswith("cc")]
+            res["concurrent"] = {"sent": ids["x"] + ids["y"], "got": got_ids, "yields": yi.yields}
+            acc.count("concurrent_followup_phases")
         res["peer_errors_same_conn"] = list(W.peer_errors)
         res["phase"] = "reconnect"
         # reconnect and try again
@@ -365,6 +402,15 @@ def run_case(acc, seed, tag, d):
         W.close()
         return
     acc.count("followups_ok", len(res.get("followups", [])))
+    cc = res.get("concurrent")
+    if cc:
+        miss = [i_ for i_ in cc["sent"] if cc["got"].count(i_) != 1]
+        if miss or res.get("peer_errors_same_conn"):
+            bad("concurrent-followups:%s" % ("stream-corrupt" if res.get("peer_errors_same_conn") else "not-exactly-once"),
+                "after the failure, sends from the thread that saw it and from another thread at the same time: %s"
+                % ("the peer cannot decrypt the stream any more (%s)" % (res["peer_errors_same_conn"][:1],) if res.get("peer_errors_same_conn") else "stanzas %s arrived not exactly once" % miss[:4]))
+        else:
+            acc.count("concurrent_followups_ok")
     if not res.get("reconnected"):
         bad("no-reconnect", "after the failure the client could not log in again")
         W.close()
